@@ -104,6 +104,10 @@ def op_term(words):
         return "MuxClearGroup %s %s" % (hd(a[0]), zz(a[1]))
     if n == "MuxClearAll":
         return "MuxClearAll %s" % hd(a[0])
+    if n == "MsgUpdateSize":
+        return "MsgResize %s %s %s" % (hd(a[0]), zz(a[1]), bb(a[2]))
+    if n == "BusSetType":
+        return "BusSetType %s %s" % (hd(a[0]), zz(a[1]))
     if n == "CloneEnum":
         return "EnumClone %s" % hd(a[0])
     if n == "CloneEval":
@@ -185,8 +189,8 @@ def observed_term(dump):
             heaps["N"].append("(%s, mkNet %s (Mn %s))" % (h, hset(f["b"]), kv(f["bn"], nm)))
         elif tag == "B":
             f = fields(body)
-            heaps["B"].append("(%s, mkBus %s %s (Mh %s) (Mn %s) (Mz %s) (Mz %s))" % (
-                h, nm(f["n"]), opt(f["p"]), kv(f["ni"], hd), kv(f["nn"], nm), kv(f["id"], zz), kv(f["st"], zz)))
+            heaps["B"].append("(%s, mkBus %s %s (Mh %s) (Mn %s) (Mz %s) (Mz %s) %s)" % (
+                h, nm(f["n"]), opt(f["p"]), kv(f["ni"], hd), kv(f["nn"], nm), kv(f["id"], zz), kv(f["st"], zz), zz(f["ty"])))
         elif tag == "O":
             f = fields(body)
             heaps["O"].append("(%s, mkNode %s %s %s %s)" % (h, nm(f["n"]), zz(f["id"]), hlist(f["if"]), zz(f["c"])))
